@@ -387,6 +387,13 @@ fn module_text(cases: &[Case], k: usize, with_values: bool) -> Vec<String> {
     let mut s = String::from("Ts-Mod-A DEFINITIONS AUTOMATIC TAGS ::= BEGIN\nIMPORTS Imp-Type, imp-val, E164, X-509, T1 FROM Ts-Mod-B;\n");
     s.push_str(BASE_DEFS);
     for c in cases {
+        // some assignments carry a comment of several lines in front, with the closing delimiter of a block comment in it
+        let n: usize = c.name.chars().filter(|ch| ch.is_ascii_digit()).collect::<String>().parse().unwrap_or(0);
+        match n % 10 {
+            3 => s.push_str("-- first line a/*/b }\n-- second */ line {\n"),
+            7 => s.push_str("/* outer /* nested */ still\n outer } */\n"),
+            _ => {}
+        }
         s.push_str(&format!("{} ::= {}\n", c.name, commented(c)));
     }
     if with_values {
@@ -409,6 +416,10 @@ pub fn gen_cases(cfg: &RunCfg) -> Vec<Case> {
         Ty::SeqOf { set: false, elem: Box::new(Ty::Enum { root: vec!["p".into(), "q".into()], marker: false, adds: vec![] }), elem_tag: None },
         Ty::SeqOf { set: true, elem: Box::new(Ty::Choice { root: vec![c("a", Ty::Prim("INTEGER"), Opt::Req), c("b", Ty::Prim("BOOLEAN"), Opt::Req)], marker: false, adds: vec![] }), elem_tag: None },
         Ty::SeqOf { set: false, elem: Box::new(Ty::SeqOf { set: false, elem: Box::new(Ty::Enum { root: vec!["only".into()], marker: false, adds: vec![] }), elem_tag: None }), elem_tag: None },
+        // arrays of arrays (and one level more) of inline unions
+        Ty::SeqOf { set: false, elem: Box::new(Ty::SeqOf { set: false, elem: Box::new(Ty::Choice { root: vec![c("a", Ty::Prim("NULL"), Opt::Req), c("b", Ty::Prim("BOOLEAN"), Opt::Req)], marker: false, adds: vec![] }), elem_tag: None }), elem_tag: None },
+        Ty::SeqOf { set: true, elem: Box::new(Ty::SeqOf { set: false, elem: Box::new(Ty::SeqOf { set: false, elem: Box::new(Ty::Enum { root: vec!["p".into(), "q".into()], marker: false, adds: vec![] }), elem_tag: None }), elem_tag: None }), elem_tag: None },
+        Ty::Seq { set: false, root: vec![c("grid", Ty::SeqOf { set: false, elem: Box::new(Ty::SeqOf { set: true, elem: Box::new(Ty::Choice { root: vec![c("x", Ty::Prim("INTEGER"), Opt::Req), c("y", Ty::Prim("NULL"), Opt::Req)], marker: false, adds: vec![] }), elem_tag: None }), elem_tag: None }, Opt::Optional)], marker: false, adds: vec![] },
         Ty::Seq {
             set: false,
             root: vec![c("a-field", Ty::Prim("INTEGER"), Opt::Req), c("b", Ty::Prim("BOOLEAN"), Opt::Optional), c("c", Ty::Prim("INTEGER"), Opt::Default("5".into()))],
